@@ -12,3 +12,19 @@ UNITS = [
        note="hard min/max reservoir invariant 0 <= R' <= reservoir_bits and per-block accounting; case: %s, W=%d; all sizes, rates, reservoir, bias symbolic" % (LIM[l], w))
   for l in (1, 2, 3) for w in (0, 1)
 ]
+
+# quick tier: the named postconditions (reservoir invariant, per-block accounting,
+# choice range) of the max-only and min-only cases; the safety obligations of the
+# same units are decided in the thorough tier
+UNITS += [
+  Unit("bitrate_addblock_l%d_w%d_inv" % (l, w), ["C14"], "lib/bitrate.c", enforce="vorbis_bitrate_addblock", harness="h_bitrate_addblock.c", entry="h_bitrate_addblock",
+       replace=["oggpack_bytes", "oggpack_writetrunc", "oggpack_write"], loops="bitrate_addblock5.loops",
+       unwindset=["vorbis_bitrate_addblock.0:17","vorbis_bitrate_addblock.1:17","vorbis_bitrate_addblock.2:17","vorbis_bitrate_addblock.3:17", "h_bitrate_addblock.0:16"],
+       defines=["VERIF_NOAVG", "VERIF_LIMITS=%d" % l, "VERIF_W=%d" % w], reach=2, timeout=1500, shards=8, only_props=r"postcondition|loop_|unwind",
+       assumed=["reservoir_bits >= 8", "avg_bitsper == 0", "obligation subset: contract postconditions, loop-contract and unwinding obligations only (all obligations in the thorough tier)"],
+       note="quick subset: reservoir invariant and per-block accounting; case: %s, W=%d" % (LIM[l], w))
+  for l, w in ((1, 0), (2, 0))
+]
+for u in UNITS:
+    if u.name != "bitrate_addblock_l1_w0_inv":
+        u.tier = "thorough"
